@@ -429,3 +429,27 @@ def variants(qualname):
 def build_args(variant, d, label=True):
     return {name: build(spec, name, d, label=label)
             for name, spec in variant.items()}
+
+
+# ---------------------------------------------------------------------------
+# Summaries (axioms about teneva helpers whose bodies are checked on their
+# own by another property): used instead of inlining.
+_mv_counter = [0]
+
+
+def maxvol_summary(interp, fn, pos, kw, node):
+    """utils._maxvol(A, ...) -> (I:[rho] int, B:[n, rho]) with rho a fresh
+    *free* symbol: the number of selected rows depends on the data and on the
+    rank-growth settings and is not tied to any other size (C08 checks that
+    every branch of _maxvol / maxvol / maxvol_rect returns such a pair)."""
+    A = pos[0] if pos else kw.get('A')
+    _mv_counter[0] += 1
+    rho = sym('rho%d' % _mv_counter[0])
+    n = None
+    if A is not None and A.k == 'arr' and A.dims is not None and \
+            len(A.dims) == 2:
+        n = A.dims[0]
+    return TUPLE([ARR((rho,), 'i'), ARR((n, rho), 'f')])
+
+
+DEFAULT_SUMMARY = {'utils._maxvol': maxvol_summary}
